@@ -334,3 +334,120 @@ Proof.
   destruct (pratt (ex_pv_pre ++ TT_Identifier :: [TT_EmptyApply])) as [t|] eqn:E; [|vm_compute in E; discriminate E].
   apply (C18_parens_around_value_operator_expressions ex_pv_pre [TT_EmptyApply] TT_Identifier t); [reflexivity|exact E|reflexivity].
 Qed.
+
+(* ------------------------------------------------------------------------------------
+   The RESULT half for parentheses: Group nodes emit nothing.
+   On the tree compiler of Model/Compile.v (proved equal to the builder model on every proper
+   tree: compile_agrees_full in Properties/C05.v).  [wrap_at p g t] puts a Group node with
+   index g above the sub-tree of t at path p (false = left child, true = right child);
+   [wrap_ok p t] is the boolean side condition, read off the builder: the wrapped node is
+   NOT (i) a list of the kind its parent flattens (`a b c` against `(a b) c`), (ii) a
+   conditional or an else link that has a conditional parent, i.e. a link of an else-chain
+   or the left operand of && / || (`a ?> b |> c ?> d` against `a ?> b |> (c ?> d)`).
+   (An identifier that becomes a Property under `.` is a matter of the PARSER -- excluded in
+   C18_parens_around_value_operator_expressions; on trees the definitions are given.)
+   Then: if the tree compiles, the tree with the extra Group node compiles, with the same
+   entry, the same instruction list -- operands included -- and the same jump table
+   (the metadata, node indices, is not compared). *)
+From GV Require Import Gen.Instr Model.BuilderWL Model.Compile Proofs.C05.Known Proofs.C18.GroupSim Proofs.C18.ParensCode.
+
+Theorem C18_group_nodes_emit_nothing : forall init lit p g t t' c e,
+  wrap_ok p t = true -> wrap_at p g t = Some t' ->
+  compile init lit t = Ok (c, e) ->
+  exists c', compile init lit t' = Ok (c', e) /\ ci c' = ci c /\ cj c' = cj c.
+Proof. exact group_node_emits_nothing. Qed.
+Print Assumptions C18_group_nodes_emit_nothing.
+
+(* the general form: ANY number of Group nodes at neutral positions together with a renaming
+   of the node indices ([grel], Proofs/C18/GroupSim.v: same shape and definitions apart from
+   the extra groups, literal oracles lit' / lit and data labels f' / f agreeing on
+   corresponding nodes): same entry and jump table, same instructions with every data
+   operand read through the labels *)
+Theorem C18_group_nodes_emit_nothing_renamed : forall init lit' lit f' f t' t c e,
+  grel lit' lit f' f None false t' t -> compile init lit t = Ok (c, e) ->
+  exists c', compile init lit' t' = Ok (c', e) /\
+             map (ren f') (ci c') = map (ren f) (ci c) /\ cj c' = cj c.
+Proof. exact compile_sim. Qed.
+Print Assumptions C18_group_nodes_emit_nothing_renamed.
+
+(* each clause of the side condition is necessary (counterexamples: the condition fails, both
+   trees compile, the codes differ), and at every other position of the same four trees --
+   `1 2 3`, `1 ?> 2 |> 3 ?> 4`, `1 ?> 2 |> 3 ?> 4 |> 5`, `1 ?> 2 && 3` -- the codes agree *)
+Example C18_group_side_condition_list_necessary :
+  wrap_ok [false] ex_list = false /\ code_wrapped [false] ex_list <> code_of ex_list /\ code_of ex_list <> None /\
+  code_wrapped [false] ex_list <> None.
+Proof. exact neutral_list_needed. Qed.
+Example C18_group_side_condition_else_chain_necessary :
+  wrap_ok [true] ex_else = false /\ code_wrapped [true] ex_else <> code_of ex_else /\ code_of ex_else <> None /\
+  code_wrapped [true] ex_else <> None.
+Proof. exact neutral_cond_needed. Qed.
+Example C18_group_side_condition_else_link_necessary :
+  wrap_ok [false] ex_else2 = false /\ code_wrapped [false] ex_else2 <> code_of ex_else2 /\ code_of ex_else2 <> None /\
+  code_wrapped [false] ex_else2 <> None.
+Proof. exact neutral_else_link_needed. Qed.
+Example C18_group_side_condition_logical_left_necessary :
+  wrap_ok [false] ex_and = false /\ code_wrapped [false] ex_and <> code_of ex_and /\ code_of ex_and <> None /\
+  code_wrapped [false] ex_and <> None.
+Proof. exact neutral_logical_left_needed. Qed.
+(* non-vacuity of the theorem: the hypotheses hold at the root of `1 ?> 2 |> 3 ?> 4` and
+   the code is a real one (9 instructions, 4 jump entries) *)
+Example C18_ex_group_nodes :
+  wrap_ok [] ex_else = true /\
+  (exists t' c e, wrap_at [] 99 ex_else = Some t' /\ compile empty_init lit_true ex_else = Ok (c, e) /\
+                  length (ci c) = 9 /\ length (cj c) = 4).
+Proof. vm_compute. split; [reflexivity|]. eexists _, _, _. repeat split; reflexivity. Qed.
+
+(* End to end, for round brackets around a whole operator expression of any length (the
+   rewrite of C18_parens_operator_expressions): `toks` and `( toks )` are both accepted, and
+   whenever the builder model (Model/BuilderWL.v, diffed against build.rs on every run)
+   succeeds on both -- into the same data object, with any fuel -- the two instruction
+   streams are equal instruction by instruction (operation and jump / list-length /
+   expression operands), the jump tables are equal and the same entry is reported; so the
+   two programs run identically provided their k-th data operands name equal constants.
+   PARTIAL in two respects: (1) the data operands, which in the model are parse-node indices,
+   are blanked ([erase_data]) -- that the k-th data operand of both streams comes from the
+   same source token is not stated; (2) the literal oracle is [lit_all] (every literal
+   parses). *)
+Theorem C18_parens_whole_same_code_partial : forall (toks : list token_type) (t : rtree),
+  no_separators toks = true -> pratt toks = Some t ->
+  same_code_of_builds toks (TT_StartGroup :: toks ++ [TT_EndGroup]).
+Proof. exact parens_whole_same_code. Qed.
+Print Assumptions C18_parens_whole_same_code_partial.
+
+(* the full statement (not proved): the same for the other two bracket rewrites -- one value
+   token, an existing group -- whose reference trees are so far only known up to
+   [strip_groups] (the machine simulation of Proofs/C18/ViaPrattParens.v), which is too coarse
+   for the builder: `(a b) c` and `a b c` are equal up to groups and build differently *)
+Definition C18_parens_same_code_full_statement : Prop :=
+  (forall (toks : list token_type) (t : rtree),
+     no_separators toks = true -> pratt toks = Some t ->
+     same_code_of_builds toks (TT_StartGroup :: toks ++ [TT_EndGroup])) /\
+  (forall (pre post : list token_type) (v : token_type) (t : rtree),
+     is_value_tok v = true -> pratt (pre ++ v :: post) = Some t ->
+     definition_eqb (ref_def v) D_Identifier && after_period pre = false ->
+     same_code_of_builds (pre ++ v :: post) (pre ++ TT_StartGroup :: v :: TT_EndGroup :: post)) /\
+  (forall (pre e post : list token_type) (t te : rtree),
+     pratt (pre ++ TT_StartGroup :: e ++ TT_EndGroup :: post) = Some t -> pratt e = Some te ->
+     no_separators e = true ->
+     same_code_of_builds (pre ++ TT_StartGroup :: e ++ TT_EndGroup :: post)
+                         (pre ++ TT_StartGroup :: TT_StartGroup :: e ++ TT_EndGroup :: TT_EndGroup :: post)).
+
+(* non-vacuity: `(a + b)*-c.d~~ e` and the same in brackets both build (14 instructions,
+   data operands at different node indices) and the conclusion holds on them *)
+Example C18_ex_parens_whole_same_code :
+  no_separators (ex_vp_pre ++ ex_vp_post) = true /\
+  (exists t, pratt (ex_vp_pre ++ ex_vp_post) = Some t) /\
+  match parse (ex_vp_pre ++ ex_vp_post), parse (TT_StartGroup :: (ex_vp_pre ++ ex_vp_post) ++ [TT_EndGroup]) with
+  | Ok (root, nodes), Ok (root', nodes') =>
+    match build nodes empty_init lit_all (build_fuel nodes) root, build nodes' empty_init lit_all (build_fuel nodes') root' with
+    | Ok r, Ok r' =>
+      map erase_data (instrs (fst r')) = map erase_data (instrs (fst r)) /\ jumps (fst r') = jumps (fst r) /\
+      snd r' = snd r /\ instrs (fst r') <> instrs (fst r) /\ 10 <= length (instrs (fst r))
+    | _, _ => False
+    end
+  | _, _ => False
+  end.
+Proof.
+  vm_compute. split; [reflexivity|]. split; [eexists; reflexivity|].
+  repeat split; try reflexivity; try discriminate. repeat constructor.
+Qed.
